@@ -144,7 +144,16 @@ func checkSend(r reporter, tier string) (evals, nontrivial int64) {
 	for _, n := range lengths {
 		payload := make([]byte, n)
 		for i := range payload {
-			payload[i] = byte(i*31 + n)
+			switch n % 4 {
+			case 1:
+				payload[i] = 0 // all NUL: a C-string style copy would stop short
+			case 2:
+				payload[i] = 0xFF
+			case 3:
+				payload[i] = byte(i) // contains every byte value incl. NUL, newline, 0x1d
+			default:
+				payload[i] = byte(i*31 + n)
+			}
 		}
 		for pi, p := range pairs {
 			for _, pid := range []uint32{0, 99} {
